@@ -286,24 +286,42 @@ func Run(sc *Scenario, f Fault, mat *TLSMaterial) Obs {
 		close(peerDone)
 	}
 
+	doCancelIf := func(raw int, when bool) {
+		if !when || cancelled.Load() {
+			return
+		}
+		before := p.DeadlineCalls()
+		cancelled.Store(true)
+		ops := p.Ops()
+		if raw < len(ops) {
+			cancelModel.Store(int64(ops[raw].Model))
+		}
+		cancel()
+		if !sc.RWOnly && !noPulse.Load() {
+			// the library reacts with one Set*Deadline call (deadline in the past, kept) or
+			// with two (set and cleared at once): wait for the first, give a second one a
+			// moment, then go on
+			if p.WaitDeadlineCalls(before+1, PulseWait) {
+				pulseSeen.Store(true)
+				p.WaitDeadlineCalls(before+2, 150*time.Microsecond)
+			} else {
+				noPulse.Store(true)
+			}
+		}
+	}
 	switch f.Cancel {
 	case "idle":
-		p.OnOp = func(raw int) {
-			if raw != f.CancelAt || cancelled.Load() {
-				return
-			}
-			before := p.DeadlineCalls()
-			cancelled.Store(true)
-			ops := p.Ops()
-			cancelModel.Store(int64(ops[raw].Model))
-			cancel()
-			if !sc.RWOnly && !noPulse.Load() {
-				if p.WaitDeadlineCalls(before+2, PulseWait) {
-					pulseSeen.Store(true)
-				} else {
-					noPulse.Store(true)
-				}
-			}
+		p.OnOp = func(raw int) { doCancelIf(raw, raw == f.CancelAt) }
+	case "after":
+		p.OnOpDone = func(raw int) { doCancelIf(raw, raw == f.CancelAt) }
+	case "atlimit":
+		// between two reads: when the read that delivers the last byte the (silent) peer
+		// sends has succeeded
+		p.OnOpDone = func(raw int) {
+			p.mu.Lock()
+			hit := p.delivered >= f.B && !p.ops[raw].W
+			p.mu.Unlock()
+			doCancelIf(raw, hit)
 		}
 	case "blocked":
 		go func() {
